@@ -68,12 +68,26 @@ func cliContent(n *Node, mark, base string) string {
 	b.WriteString("(set 'c20n (+ c20n 1))\n")
 	fmt.Fprintf(&b, "(if (> c20n %d) (error 'c20-limit \"limit\") ())\n", cliLoadLimit)
 	fmt.Fprintf(&b, "(debug-print \"EV begin %s\")\n", n.ID)
+	for k, l := range n.Defs {
+		l = subst(l, base)
+		if !cliSafe(l) {
+			l = "c20-unspeakable"
+		}
+		fmt.Fprintf(&b, "(defun c20f-%s-%d () (handler-bind ((condition (lambda (c &rest _) (debug-print \"EV refused %s %d\")))) (load-file \"%s\")))\n", n.ID, k, n.ID, defBase+k, l)
+	}
 	for k, l := range n.Loads {
 		l = subst(l, base)
 		if !cliSafe(l) {
 			continue
 		}
 		fmt.Fprintf(&b, "(handler-bind ((condition (lambda (c &rest _) (debug-print \"EV refused %s %d\")))) (load-file \"%s\"))\n", n.ID, k, l)
+	}
+	for k, c := range n.Calls {
+		fn, _, _, ok := fnName(c)
+		if !ok {
+			continue
+		}
+		fmt.Fprintf(&b, "(handler-bind ((condition (lambda (c &rest _) (debug-print \"EV nocall %s %d\")))) (%s))\n", n.ID, k, fn)
 	}
 	fmt.Fprintf(&b, "(debug-print \"EV end %s\")\n\"%s\"\n", n.ID, n.ID)
 	return b.String()
@@ -89,12 +103,12 @@ func cliSafe(s string) bool {
 }
 
 type cliEvent struct {
-	Kind string // begin | end | refused | done
+	Kind string // begin | end | refused | nocall | done
 	ID   string
 	N    int
 }
 
-var cliEventRe = regexp.MustCompile(`^"EV (begin|end|refused|done) (\S+?)(?: (\d+))?"$`)
+var cliEventRe = regexp.MustCompile(`^"EV (begin|end|refused|nocall|done) (\S+?)(?: (\d+))?"$`)
 
 func parseCLIEvents(stderr []byte) []cliEvent {
 	var out []cliEvent
@@ -119,11 +133,36 @@ type cliRun struct {
 }
 
 func (w *world) cliExec(bin, rootCfg string, args ...string) cliRun {
+	return w.cliExecCmd(bin, "run", nil, rootCfg, args...)
+}
+
+// dapScript is the whole input of a scripted DAP client: initialize, launch
+// without stop-on-entry, configurationDone, disconnect.  `elps debug --stdio`
+// evaluates the file in a goroutine and exits when both the session and the
+// evaluation are over.
+var dapScript = func() []byte {
+	var b bytes.Buffer
+	for i, m := range []string{
+		`"command":"initialize","arguments":{"adapterID":"c20"}`,
+		`"command":"launch","arguments":{"stopOnEntry":false}`,
+		`"command":"configurationDone"`,
+		`"command":"disconnect"`,
+	} {
+		body := fmt.Sprintf(`{"seq":%d,"type":"request",%s}`, i+1, m)
+		fmt.Fprintf(&b, "Content-Length: %d\r\n\r\n%s", len(body), body)
+	}
+	return b.Bytes()
+}()
+
+func (w *world) cliExecCmd(bin, sub string, stdin []byte, rootCfg string, args ...string) cliRun {
 	ctx, cancel := context.WithTimeout(context.Background(), 60*time.Second)
 	defer cancel()
-	full := append([]string{"run", "--root-dir", rootCfg}, args...)
+	full := append([]string{sub, "--root-dir", rootCfg}, args...)
 	cmd := exec.CommandContext(ctx, bin, full...)
 	cmd.Dir = w.cwdReal
+	if stdin != nil {
+		cmd.Stdin = bytes.NewReader(stdin)
+	}
 	var so, se bytes.Buffer
 	cmd.Stdout, cmd.Stderr = &so, &se
 	err := cmd.Run()
@@ -202,6 +241,33 @@ type cliSim struct {
 	w   *world
 	ev  []cliEvent
 	ctx *vcommon.Ctx
+	// defined: file id -> the names the file was loaded under when the
+	// process evaluated it (its functions exist from then on)
+	defined map[string][]string
+}
+
+// call consumes the effects of calling function ref: the load made by its
+// body is attributed to the file that defines it.
+func (s *cliSim) call(i int, ref string) (int, bool, *vcommon.Failure) {
+	_, id, k, ok := fnName(ref)
+	d := s.w.m.files[id]
+	names, def := s.defined[id]
+	if !ok || !def || d == nil || k >= len(d.Defs) {
+		return i, false, nil
+	}
+	if len(names) == 0 && s.w.realRoot != "" {
+		names = []string{strings.Join(relSpell(s.w.realRoot, s.w.m.abs(d)), "/")}
+	}
+	l := subst(d.Defs[k], s.w.m.base)
+	if !cliSafe(l) {
+		l = "c20-unspeakable"
+	}
+	s.ctx.Class("op:load-from-function")
+	i, served, f := s.load(i, names, d.ID, defBase+k, l, false)
+	if served != nil {
+		s.ctx.Class("op:function-load-served")
+	}
+	return i, true, f
 }
 
 func (s *cliSim) at(i int) string {
@@ -316,6 +382,9 @@ func (s *cliSim) load(i int, cands []string, who string, k int, loc string, file
 
 func (s *cliSim) file(i int, n *Node, names []string) (int, *vcommon.Failure) {
 	i++ // the begin event
+	if s.defined != nil {
+		s.defined[n.ID] = names
+	}
 	for k, l := range n.Loads {
 		l = subst(l, s.w.m.base)
 		if !cliSafe(l) {
@@ -329,6 +398,23 @@ func (s *cliSim) file(i int, n *Node, names []string) (int, *vcommon.Failure) {
 		}
 		if served != nil {
 			s.ctx.Class("op:nested-load-served")
+		}
+	}
+	for k, c := range n.Calls {
+		if _, _, _, ok := fnName(c); !ok {
+			continue
+		}
+		var def bool
+		var f *vcommon.Failure
+		i, def, f = s.call(i, c)
+		if f != nil {
+			return i, f
+		}
+		if !def {
+			if i >= len(s.ev) || s.ev[i].Kind != "nocall" || s.ev[i].ID != n.ID || s.ev[i].N != k {
+				return i, vcommon.Failf("cli-trace/evaluation-differs", "file %s calls %s, which no evaluated file defines: expected 'nocall %s %d', trace has %s", n.ID, c, n.ID, k, s.at(i))
+			}
+			i++
 		}
 	}
 	if i >= len(s.ev) || s.ev[i].Kind != "end" || s.ev[i].ID != n.ID {
@@ -405,11 +491,7 @@ func (w *world) runCLI(c Case, ctx *vcommon.Ctx) *vcommon.Failure {
 		ctx.Class("root:is-symlink")
 	}
 	servedAny := false
-	type top struct {
-		k   int
-		loc string
-	}
-	var exprs []top
+	var exprs []cliTop
 	var args []string
 	for _, op := range c.Ops {
 		loc := subst(op.Loc, w.m.base)
@@ -419,21 +501,43 @@ func (w *world) runCLI(c Case, ctx *vcommon.Ctx) *vcommon.Failure {
 		switch op.Entry {
 		case "expr":
 			k := len(exprs)
-			exprs = append(exprs, top{k, loc})
+			exprs = append(exprs, cliTop{k: k, loc: loc})
 			args = append(args, fmt.Sprintf("(progn (set 'c20n 0) (handler-bind ((condition (lambda (c &rest _) (debug-print \"EV refused TOP %d\")))) (load-file \"%s\")) (debug-print \"EV done TOP %d\"))", k, loc, k))
+		case "call":
+			fn, _, _, ok := fnName(op.Loc)
+			if !ok {
+				continue
+			}
+			k := len(exprs)
+			exprs = append(exprs, cliTop{k: k, loc: op.Loc, call: true})
+			args = append(args, fmt.Sprintf("(progn (set 'c20n 0) (handler-bind ((condition (lambda (c &rest _) (debug-print \"EV nocall TOP %d\")))) (%s)) (debug-print \"EV done TOP %d\"))", k, fn, k))
 		}
 	}
+	switch c.Cmd {
+	case "", "repl", "debug":
+		ctx.Class("cmd:" + map[string]string{"": "run", "repl": "run+repl", "debug": "run+debug"}[c.Cmd])
+	default:
+		return nil
+	}
 	if len(exprs) > 0 {
-		out := w.cliExec(bin, rootCfg, append([]string{"-e", "--"}, args...)...)
+		var out cliRun
+		desc := fmt.Sprintf("elps run --root-dir %q -e ... (cwd %q)", rootCfg, w.cwdReal)
+		if c.Cmd == "repl" {
+			// the same expressions, one per line, on the standard input of the
+			// batch REPL (repl/repl.go opens the root itself)
+			out = w.cliExecCmd(bin, "repl", []byte(strings.Join(args, "\n")+"\n"), rootCfg, "--batch")
+			desc = fmt.Sprintf("elps repl --batch --root-dir %q < expressions (cwd %q)", rootCfg, w.cwdReal)
+		} else {
+			out = w.cliExec(bin, rootCfg, append([]string{"-e", "--"}, args...)...)
+		}
 		if out.timedOut {
 			ctx.Class("skip/cli-timeout")
 			return nil
 		}
-		desc := fmt.Sprintf("elps run --root-dir %q -e ... (cwd %q)", rootCfg, w.cwdReal)
 		ev := parseCLIEvents(out.stderr)
 		if f := w.cliScan(ev, out, desc); f != nil {
 			// name the escaping load precisely when the simulation can
-			if g := w.cliSimulate(ev, exprs[0].k, len(exprs), func(k int) string { return exprs[k].loc }, ctx, &servedAny); g != nil {
+			if g := w.cliSimulate(ev, exprs, ctx, &servedAny); g != nil {
 				return g
 			}
 			return f
@@ -446,11 +550,15 @@ func (w *world) runCLI(c Case, ctx *vcommon.Ctx) *vcommon.Failure {
 			// cannot be opened): every load counts as refused
 			ev = nil
 			for _, e := range exprs {
-				ev = append(ev, cliEvent{Kind: "refused", ID: "TOP", N: e.k}, cliEvent{Kind: "done", ID: "TOP", N: e.k})
+				kind := "refused"
+				if e.call {
+					kind = "nocall"
+				}
+				ev = append(ev, cliEvent{Kind: kind, ID: "TOP", N: e.k}, cliEvent{Kind: "done", ID: "TOP", N: e.k})
 			}
 			ctx.Class("cli:exits-before-loading")
 		}
-		if f := w.cliSimulate(ev, 0, len(exprs), func(k int) string { return exprs[k].loc }, ctx, &servedAny); f != nil {
+		if f := w.cliSimulate(ev, exprs, ctx, &servedAny); f != nil {
 			return f
 		}
 	}
@@ -460,14 +568,23 @@ func (w *world) runCLI(c Case, ctx *vcommon.Ctx) *vcommon.Failure {
 			continue
 		}
 		ctx.Class("entry:file")
-		out := w.cliExec(bin, rootCfg, "-p", "--", loc)
+		var out cliRun
+		desc := fmt.Sprintf("elps run --root-dir %q -p %q (cwd %q)", rootCfg, loc, w.cwdReal)
+		if c.Cmd == "debug" {
+			// cmd/debug.go: the file is evaluated under the debugger, served
+			// to a DAP client on stdin/stdout
+			ctx.Class("entry:file-under-debug")
+			out = w.cliExecCmd(bin, "debug", dapScript, rootCfg, "--stdio", "--", loc)
+			desc = fmt.Sprintf("elps debug --stdio --root-dir %q %q (cwd %q)", rootCfg, loc, w.cwdReal)
+		} else {
+			out = w.cliExec(bin, rootCfg, "-p", "--", loc)
+		}
 		if out.timedOut {
 			ctx.Class("skip/cli-timeout")
 			return nil
 		}
-		desc := fmt.Sprintf("elps run --root-dir %q -p %q (cwd %q)", rootCfg, loc, w.cwdReal)
 		ev := parseCLIEvents(out.stderr)
-		s := &cliSim{w: w, ev: ev, ctx: ctx}
+		s := &cliSim{w: w, ev: ev, ctx: ctx, defined: map[string][]string{}}
 		begins := 0
 		for _, e := range ev {
 			if e.Kind == "begin" {
@@ -498,7 +615,7 @@ func (w *world) runCLI(c Case, ctx *vcommon.Ctx) *vcommon.Failure {
 		} else {
 			servedAny = true
 			want := strconv.Quote(served.ID)
-			if out.exit != 0 || strings.TrimSpace(string(out.stdout)) != want {
+			if out.exit != 0 || (c.Cmd != "debug" && strings.TrimSpace(string(out.stdout)) != want) {
 				return vcommon.Failf("cli-trace/value", "%s: loaded %s but exit=%d stdout=%q", desc, served.ID, out.exit, out.stdout)
 			}
 		}
@@ -515,11 +632,21 @@ func (w *world) runCLI(c Case, ctx *vcommon.Ctx) *vcommon.Failure {
 	return nil
 }
 
-// cliSimulate walks the effect trace of the -e process: per top-level load k
-// its segment ends with 'done TOP k'.
-func (w *world) cliSimulate(ev []cliEvent, first, n int, locOf func(int) string, ctx *vcommon.Ctx, servedAny *bool) *vcommon.Failure {
+type cliTop struct {
+	k    int
+	loc  string // the location, or the function "<ID>/<k>" when call
+	call bool
+}
+
+// cliSimulate walks the effect trace of the expression process: per top-level
+// expression k its segment ends with 'done TOP k'.  All expressions run in one
+// runtime, so functions defined by a file loaded for one expression exist for
+// the next.
+func (w *world) cliSimulate(ev []cliEvent, exprs []cliTop, ctx *vcommon.Ctx, servedAny *bool) *vcommon.Failure {
 	i := 0
-	for k := first; k < n; k++ {
+	defined := map[string][]string{}
+	for _, x := range exprs {
+		k := x.k
 		ctx.Class("entry:expr")
 		// find the segment
 		j := i
@@ -531,21 +658,44 @@ func (w *world) cliSimulate(ev []cliEvent, first, n int, locOf func(int) string,
 			j++
 		}
 		if j >= len(ev) {
-			return vcommon.Failf("cli-trace/missing-done", "expression %d (load-file %q): no 'done TOP %d' in the binary's trace", k, locOf(k), k)
+			return vcommon.Failf("cli-trace/missing-done", "expression %d (%q): no 'done TOP %d' in the binary's trace", k, x.loc, k)
 		}
 		seg := ev[i:j]
 		i = j + 1
 		if begins >= cliLoadLimit {
 			ctx.Class("op:cycle-cut")
+			for _, e := range seg {
+				if _, have := defined[e.ID]; e.Kind == "begin" && !have {
+					defined[e.ID] = nil
+				}
+			}
 			continue
 		}
-		s := &cliSim{w: w, ev: seg, ctx: ctx}
-		end, served, f := s.load(0, []string{""}, "TOP", k, locOf(k), false)
+		s := &cliSim{w: w, ev: seg, ctx: ctx, defined: defined}
+		if x.call {
+			ctx.Class("entry:call")
+			end, def, f := s.call(0, x.loc)
+			if f != nil {
+				return f
+			}
+			if !def {
+				ctx.Class("op:call-of-undefined-function")
+				if len(seg) != 1 || seg[0].Kind != "nocall" || seg[0].ID != "TOP" || seg[0].N != k {
+					return vcommon.Failf("cli-trace/evaluation-differs", "expression %d calls %s, which no evaluated file defines: expected only 'nocall TOP %d', trace has %s", k, x.loc, k, s.at(0))
+				}
+				continue
+			}
+			if end != len(seg) {
+				return vcommon.Failf("cli-trace/extra-events", "expression %d (call of %s): unexpected trailing effects from %s", k, x.loc, s.at(end))
+			}
+			continue
+		}
+		end, served, f := s.load(0, []string{""}, "TOP", k, x.loc, false)
 		if f != nil {
 			return f
 		}
 		if end != len(seg) {
-			return vcommon.Failf("cli-trace/extra-events", "expression %d (load-file %q): unexpected trailing effects from %s", k, locOf(k), s.at(end))
+			return vcommon.Failf("cli-trace/extra-events", "expression %d (load-file %q): unexpected trailing effects from %s", k, x.loc, s.at(end))
 		}
 		if served != nil {
 			*servedAny = true
